@@ -71,13 +71,13 @@ static const Profile& profileFor(const std::string &prop)
         P["C13"] = { "C13", K(FK_MTB)|K(FK_MTI)|K(FK_MTR)|K(FK_EVP), true, true, false,
             cat({BUILD, {{"reorder", 20}, {"bin", 12}, {"release", 4}, {"purge", 1}, {"rebuild", 4}, {"iter", 3}}}), false, true };
         P["C14"] = { "C14", K_ALL|K(FK_IDX), true, true, false,
-            cat({BUILD, {{"io", 30}, {"bin", 8}, {"release", 4}, {"reorder", 1}, {"index", 5}, {"copy", 3}}}), false, false };
+            cat({BUILD, {{"io", 30}, {"ioread", 14}, {"killforest", 2}, {"newforest", 4}, {"restart", 1}, {"bin", 8}, {"release", 4}, {"reorder", 1}, {"index", 5}, {"copy", 3}}}), false, false };
         P["C15"] = { "C15", K(FK_MTB)|K(FK_IDX), true, false, false,
             cat({BUILD, {{"index", 30}, {"bin", 10}, {"compl", 3}, {"release", 4}, {"card", 3}, {"iter", 3}, {"bigcard", 5}}}), false, false };
         P["C16"] = { "C16", K_ALL, true, true, true,
             cat({BUILD, CHURN, {{"misuse", 30}, {"bin", 25}, {"iter", 4}, {"copy", 3}}}), false, false };
         P["C17"] = { "C17", K_ALL, true, true, true,
-            cat({BUILD, CHURN, {{"bin", 20}, {"copy", 6}, {"killforest", 6}, {"killdomain", 1}, {"newforest", 5}, {"restart", 2}, {"iteropen", 3}, {"iterstep", 3}, {"image", 8}, {"vmmult", 3}, {"reach", 3}, {"misuse", 2}}}), true, false };
+            cat({BUILD, CHURN, {{"bin", 20}, {"copy", 6}, {"killforest", 6}, {"killdomain", 1}, {"newforest", 5}, {"restart", 2}, {"iteropen", 3}, {"iterstep", 3}, {"image", 8}, {"vmmult", 3}, {"reach", 3}, {"misuse", 2}, {"io", 3}, {"ioread", 4}}}), true, false };
         P["C20"] = { "C20", K(FK_MTB), true, true, false,
             cat({BUILD, {{"satpart", 30}, {"bin", 6}, {"release", 4}, {"purge", 2}}}), false, false };
     }
